@@ -570,3 +570,305 @@ Proof.
 Qed.
 
 End Machine.
+
+(* ============================================================ states that differ in %ip/%acc only *)
+Definition same_mem (m m' : vm) : Prop :=
+  hp m' = hp m /\ st m' = st m /\ g_bind m' = g_bind m /\ g_slots m' = g_slots m /\
+  stack m' = stack m /\ scap m' = scap m /\ sp m' = sp m /\ bp m' = bp m /\ ep m' = ep m /\
+  out_log m' = out_log m.
+
+(* what the code of an expression leaves unchanged *)
+Record frame (m m' : vm) : Prop := {
+  fr_ext : cext m m';
+  fr_sp : sp m' = sp m; fr_bp : bp m' = bp m; fr_ep : ep m' = ep m; fr_log : out_log m' = out_log m;
+  fr_stack : forall j, j <= sp m -> sget m' j = sget m j
+}.
+
+Lemma frame_refl m : frame m m.
+Proof. constructor; auto using cext_refl. Qed.
+Lemma frame_trans m1 m2 m3 : frame m1 m2 -> frame m2 m3 -> frame m1 m3.
+Proof.
+  intros [X1 S1 B1 E1 L1 K1] [X2 S2 B2 E2 L2 K2]. constructor; try congruence.
+  - eapply cext_trans; eassumption.
+  - intros j Hj. rewrite K2 by lia. apply K1. exact Hj.
+Qed.
+Lemma same_mem_frame m m' : same_mem m m' -> frame m m'.
+Proof.
+  intros (Eh & Es & Eb & Eg & Ek & Ec & Esp & Ebp & Eep & El). constructor; auto.
+  - apply cext_same; auto. rewrite Eg. lia.
+  - intros j _. unfold sget. rewrite Ek. reflexivity.
+Qed.
+Lemma same_mem_minv m m' : same_mem m m' -> minv m -> minv m'.
+Proof.
+  intros (Eh & Es & Eb & Eg & Ek & Ec & Esp & Ebp & Eep & El) [H G S]. constructor.
+  - rewrite Eh. exact H.
+  - unfold ginv. rewrite Eb, Eg. exact G.
+  - rewrite Esp, Ec. exact S.
+Qed.
+
+(* ============================================================ the fragment *)
+Inductive expr :=
+| EConst (c : cell)
+| EQuote (d : cell)
+| EIf (c a b : expr)
+| EIf1 (c a : expr)
+| EVar (x : text)
+| EDefine (x : text) (e : expr)
+| ESet (x : text) (e : expr)
+| EApp (f : expr) (args : list expr).
+
+Definition IF_ : cell := CSym (S_ "if").
+Definition DEFINE_ : cell := CSym (S_ "define").
+Definition SET_ : cell := CSym (S_ "set!").
+
+Fixpoint cell_of (e : expr) : cell :=
+  match e with
+  | EConst c => c
+  | EQuote d => quote_of d
+  | EIf c a b => CPair IF_ (CPair (cell_of c) (CPair (cell_of a) (CPair (cell_of b) CNil)))
+  | EIf1 c a => CPair IF_ (CPair (cell_of c) (CPair (cell_of a) CNil))
+  | EVar x => CSym x
+  | EDefine x e => CPair DEFINE_ (CPair (CSym x) (CPair (cell_of e) CNil))
+  | ESet x e => CPair SET_ (CPair (CSym x) (CPair (cell_of e) CNil))
+  | EApp f args => CPair (cell_of f) (fold_right CPair CNil (map cell_of args))
+  end.
+
+(* the data that compile_expression treats as self-evaluating (compile.rs:150-157) *)
+Definition self_eval (c : cell) : bool :=
+  match c with CBool _ | CChar _ | CNum _ | CStr _ | CVec _ => true | _ => false end.
+
+Fixpoint wf_expr (e : expr) : Prop :=
+  match e with
+  | EConst c => self_eval c = true /\ heap_datum c
+  | EQuote d => heap_datum d
+  | EIf c a b => wf_expr c /\ wf_expr a /\ wf_expr b
+  | EIf1 c a => wf_expr c /\ wf_expr a
+  | EVar x => is_primitive_symbol (CSym x) = false
+  | EDefine x e | ESet x e => is_primitive_symbol (CSym x) = false /\ wf_expr e
+  | EApp f args => special_head (cell_of f) = false /\ wf_expr f /\
+                   (fix all (l : list expr) : Prop := match l with [] => True | x :: r => wf_expr x /\ all r end) args
+  end.
+
+Lemma wf_app f args : wf_expr (EApp f args) <->
+  special_head (cell_of f) = false /\ wf_expr f /\ Forall wf_expr args.
+Proof.
+  cbn [wf_expr]. induction args as [|x r IH]; [intuition|].
+  split.
+  - intros (A & B & C & D). destruct IH as [IH _]. destruct (IH (conj A (conj B D))) as (_ & _ & F). auto.
+  - intros (A & B & F). inversion F; subst. destruct IH as [_ IH]. destruct (IH (conj A (conj B H2))) as (_ & _ & D). auto.
+Qed.
+
+Section expr_ind2.
+Variable P : expr -> Prop.
+Hypothesis Hconst : forall c, P (EConst c).
+Hypothesis Hquote : forall d, P (EQuote d).
+Hypothesis Hif : forall c a b, P c -> P a -> P b -> P (EIf c a b).
+Hypothesis Hif1 : forall c a, P c -> P a -> P (EIf1 c a).
+Hypothesis Hvar : forall x, P (EVar x).
+Hypothesis Hdef : forall x e, P e -> P (EDefine x e).
+Hypothesis Hset : forall x e, P e -> P (ESet x e).
+Hypothesis Happ : forall f args, P f -> Forall P args -> P (EApp f args).
+Fixpoint expr_ind2 (e : expr) : P e :=
+  match e with
+  | EConst c => Hconst c
+  | EQuote d => Hquote d
+  | EIf c a b => Hif c a b (expr_ind2 c) (expr_ind2 a) (expr_ind2 b)
+  | EIf1 c a => Hif1 c a (expr_ind2 c) (expr_ind2 a)
+  | EVar x => Hvar x
+  | EDefine x e => Hdef x e (expr_ind2 e)
+  | ESet x e => Hset x e (expr_ind2 e)
+  | EApp f args => Happ f args (expr_ind2 f)
+      ((fix go (l : list expr) : Forall P l :=
+          match l with [] => Forall_nil P | x :: r => Forall_cons x (expr_ind2 x) (go r) end) args)
+  end.
+End expr_ind2.
+
+(* ============================================================ reference semantics *)
+Definition env := text -> option rval.
+Definition upd (rho : env) (x : text) (r : rval) : env :=
+  fun y => if text_eqb y x then Some r else rho y.
+
+Section Sem.
+Variable ob : N -> M vcell.
+(* the meaning of builtin procedure b on argument values (None: not specified) *)
+Variable bsem : N -> list rval -> option rval.
+
+Notation run_one := (Vm.run_one ob).
+Notation steps := (RunProofs.steps ob).
+Notation run_builtin := (Vm.run_builtin ob).
+
+(* big-step, call by value, operands left to right and then the operator (the order of
+   compile.rs:530-558), `define`/`set!` on the global environment, one-armed `if`
+   yields #<void>, an unbound or undefined variable has no value *)
+Inductive ref_eval : env -> expr -> rval -> env -> Prop :=
+| RE_const rho c : ref_eval rho (EConst c) (RDatum c) rho
+| RE_quote rho d : ref_eval rho (EQuote d) (RDatum d) rho
+| RE_var rho x r : rho x = Some r -> r <> RDatum CUndef -> ref_eval rho (EVar x) r rho
+| RE_if_t rho c a b rc rho1 r rho2 :
+    ref_eval rho c rc rho1 -> is_false rc = false -> ref_eval rho1 a r rho2 -> ref_eval rho (EIf c a b) r rho2
+| RE_if_f rho c a b rc rho1 r rho2 :
+    ref_eval rho c rc rho1 -> is_false rc = true -> ref_eval rho1 b r rho2 -> ref_eval rho (EIf c a b) r rho2
+| RE_if1_t rho c a rc rho1 r rho2 :
+    ref_eval rho c rc rho1 -> is_false rc = false -> ref_eval rho1 a r rho2 -> ref_eval rho (EIf1 c a) r rho2
+| RE_if1_f rho c a rc rho1 :
+    ref_eval rho c rc rho1 -> is_false rc = true -> ref_eval rho (EIf1 c a) (RDatum CVoid) rho1
+| RE_define rho x e r rho1 :
+    ref_eval rho e r rho1 -> ref_eval rho (EDefine x e) (RDatum CVoid) (upd rho1 x r)
+| RE_set rho x e r rho1 old :
+    ref_eval rho e r rho1 -> rho1 x = Some old -> ref_eval rho (ESet x e) (RDatum CVoid) (upd rho1 x r)
+| RE_app rho f args rs rho1 b rho2 r :
+    ref_evals rho args rs rho1 -> ref_eval rho1 f (RBuiltin b) rho2 -> bsem b rs = Some r ->
+    ref_eval rho (EApp f args) r rho2
+with ref_evals : env -> list expr -> list rval -> env -> Prop :=
+| RE_nil rho : ref_evals rho [] [] rho
+| RE_cons rho x r rho1 xs rs rho2 :
+    ref_eval rho x r rho1 -> ref_evals rho1 xs rs rho2 -> ref_evals rho (x :: xs) (r :: rs) rho2.
+
+(* the machine's global environment agrees with rho *)
+Definition genv_rel (rho : env) (m : vm) : Prop :=
+  forall x r, rho x = Some r -> exists a k v,
+    allocated (hp m) a /\ cell_at (hp m) a = VSym x /\ assoc_find (g_bind m) a = Some k /\
+    list_get (g_slots m) k = Some v /\ vrep v r (hp m) (st m).
+
+Lemma genv_rel_ext rho m m' : cext m m' -> g_slots m' = g_slots m -> genv_rel rho m -> genv_rel rho m'.
+Proof.
+  intros X Eg G x r Hx. destruct (G x r Hx) as (a & k & v & A & C & B & L & V).
+  destruct (ce_heap _ _ X a A) as [A' C'].
+  exists a, k, v. split; [exact A'|]. split; [congruence|]. split; [apply (ce_bind _ _ X); exact B|].
+  split; [rewrite Eg; exact L|]. eapply vrep_ext; [exact V|apply cext_ext; exact X].
+Qed.
+Lemma genv_rel_frame rho m m' : frame m m' -> g_slots m' = g_slots m -> genv_rel rho m -> genv_rel rho m'.
+Proof. intros F. apply genv_rel_ext. apply F. Qed.
+
+(* a builtin procedure that is a function of its popped arguments: called with n
+   argument values above slot sp0 and Argc n on top, it pops them, only extends heap and
+   Rc tables, leaves the other registers, the globals and the output alone, and returns
+   a value representing [bsem b args] *)
+Definition builtin_ok (b : N) : Prop :=
+  forall m sp0 vs rs r,
+    minv m -> sp m = sp0 + len vs + 1 -> sget m (sp m) = VArgc (len vs) ->
+    (forall i v, list_get vs i = Some v -> sget m (sp0 + 1 + i) = v) ->
+    Forall2 (fun v r => vrep v r (hp m) (st m)) vs rs ->
+    bsem b rs = Some r ->
+    exists v m', run_builtin b m = ROk v m' /\ minv m' /\ cext m m' /\ vrep v r (hp m') (st m') /\
+      sp m' = sp0 /\ (forall j, j <= sp0 -> sget m' j = sget m j) /\
+      bp m' = bp m /\ ep m' = ep m /\ ip m' = ip m /\ g_slots m' = g_slots m /\ out_log m' = out_log m.
+
+(* [exec_ok s0 p code rho r rho']: on every machine that extends s0 and holds [code] at
+   positions [p, p + len code) of the current lambda, execution from ip = p reaches
+   ip = p + len code in finitely many instructions with a representation of r in %acc,
+   the global environment rho', sp/bp/ep and the stack up to sp unchanged *)
+Definition exec_ok (s0 : vm) (p : N) (code : list vcell) (rho : env) (r : rval) (rho' : env) : Prop :=
+  forall m lp bc,
+    cext s0 m -> minv m -> code_in m lp bc -> seg bc p code -> ip m = (lp, p) -> genv_rel rho m ->
+    exists n m', steps n m = Some m' /\ frame m m' /\ minv m' /\ ip m' = (lp, p + len code) /\
+      vrep (acc m') r (hp m') (st m') /\ genv_rel rho' m'.
+
+Definition top_hdr (l : lambda) : Prop := l_envmap l = [] /\ l_args l = [].
+
+(* compile_expression on e succeeds with any sufficient fuel, appends code to the lambda
+   under construction, and that code computes the reference value *)
+Definition compile_ok (e : expr) : Prop :=
+  forall f l tail s, (cell_size (cell_of e) < f)%nat -> top_hdr l -> minv s ->
+  exists l' s' code, compile_expression f l tail (cell_of e) s = ROk l' s' /\
+    fwd l' = fwd l ++ code /\ same_hdr l l' /\ minv s' /\ cext s s' /\
+    forall rho r rho', ref_eval rho e r rho' -> exec_ok s' (len (fwd l)) code rho r rho'.
+
+Lemma top_hdr_same l l' : same_hdr l l' -> top_hdr l -> top_hdr l'.
+Proof. intros (_ & _ & E & A & _) [H1 H2]. split; congruence. Qed.
+
+(* ------------------------------------------------------------ compile-time state operations *)
+Lemma mpc_lams c : forall h s v h' s', maybe_put_cell h s c = Ok (v, h', s') -> lams s' = lams s.
+Proof.
+  induction c as [c Hnp Hnv|ca cd IHa IHd|l HF] using cell_ind2; intros h s v h' s' H.
+  - destruct c; cbn [maybe_put_cell] in H; try discriminate; try (injection H as _ _ <-; reflexivity).
+    + exfalso. eapply Hnp. reflexivity.
+    + unfold new_str in H. match type of H with context [heap_put ?a ?b] => destruct (heap_put a b) as [p h1] end.
+      injection H as _ _ <-. reflexivity.
+    + match type of H with context [heap_put ?a ?b] => destruct (heap_put a b) as [p h1] end.
+      injection H as _ _ <-. reflexivity.
+    + exfalso. eapply Hnv. reflexivity.
+  - cbn [maybe_put_cell] in H.
+    destruct (maybe_put_cell h s ca) as [[[va h1] s1]| | |] eqn:E1; cbn [bind] in H; try discriminate.
+    destruct (match va with VPtr _ => (va, h1) | _ => heap_put h1 va end) as [pa h2].
+    destruct (maybe_put_cell h2 s1 cd) as [[[vd h3] s3]| | |] eqn:E3; cbn [bind] in H; try discriminate.
+    destruct (match vd with VPtr _ => (vd, h3) | _ => heap_put h3 vd end) as [pd h4].
+    destruct pa; try discriminate. destruct pd; try discriminate.
+    match type of H with context [heap_put ?a ?b] => destruct (heap_put a b) as [r h5] end. injection H as _ _ <-.
+    rewrite (IHd _ _ _ _ _ E3). eapply IHa. exact E1.
+  - cbn [maybe_put_cell] in H. fold elems_of in H.
+    destruct (elems_of h s l []) as [[[vs h1] s1]| | |] eqn:E1; cbn [bind] in H; try discriminate.
+    assert (L1 : lams s1 = lams s).
+    { clear H. revert h s vs h1 s1 E1. generalize (@nil vcell).
+      induction HF as [|x r Hx _ IH]; intros acc h s vs h1 s1 E1; cbn [elems_of] in E1.
+      - injection E1 as _ _ <-. reflexivity.
+      - destruct (maybe_put_cell h s x) as [[[vx hx] sx]| | |] eqn:Ex; cbn [bind] in E1; try discriminate.
+        rewrite (IH _ _ _ _ _ _ E1). eapply Hx. exact Ex. }
+    unfold new_vec in H. match type of H with context [heap_put ?a ?b] => destruct (heap_put a b) as [r h2] end.
+    injection H as _ _ <-. cbn [lams]. exact L1.
+Qed.
+
+Lemma minv_heap_store s h x : minv s -> heap_inv h -> minv (with_store (with_heap s h) x).
+Proof. intros [H G S] HI. constructor; [exact HI|exact G|exact S]. Qed.
+
+(* Heap::maybe_put_cell at compile time (quoted data, constants) *)
+Lemma maybe_put_cell_m_ok d s : heap_datum d -> minv s ->
+  exists v s', maybe_put_cell_m d s = ROk v s' /\ minv s' /\ cext s s' /\ vrep v (RDatum d) (hp s') (st s').
+Proof.
+  intros Hd MI. destruct (maybe_put_cell_vrep d (hp s) (st s) Hd (mi_heap _ MI)) as (v & h' & s' & E & HI & [Xh Xs] & V).
+  exists v, (with_store (with_heap s h') s'). unfold maybe_put_cell_m. rewrite E.
+  split; [reflexivity|]. split; [apply minv_heap_store; assumption|]. split; [|exact V].
+  constructor; cbn [hp st g_bind g_slots with_store with_heap]; auto.
+  - intros i _. rewrite (mpc_lams _ _ _ _ _ _ E). reflexivity.
+  - lia.
+Qed.
+
+(* interning a symbol at compile time *)
+Lemma put_sym_m_ok x s : minv s ->
+  exists a s', put_cell_m (CSym x) s = ROk (VPtr a) s' /\ minv s' /\ cext s s' /\
+    allocated (hp s') a /\ cell_at (hp s') a = VSym x /\
+    g_bind s' = g_bind s /\ g_slots s' = g_slots s.
+Proof.
+  intros MI. destruct (heap_put (hp s) (VSym x)) as [r h1] eqn:E.
+  destruct (heap_put_frame _ _ _ _ (mi_heap _ MI) E ltac:(discriminate)) as (a & -> & A & C & HI & Fr).
+  exists a, (with_store (with_heap s h1) (st s)).
+  unfold put_cell_m, put_cell. cbn [maybe_put_cell]. rewrite E. cbn [bind].
+  split; [reflexivity|]. split; [apply minv_heap_store; assumption|].
+  split; [|cbn [hp st g_bind g_slots with_store with_heap]; auto].
+  constructor; cbn [hp st g_bind g_slots with_store with_heap]; auto using sext_refl. lia.
+Qed.
+
+Lemma assoc_find_cons a k l a' : assoc_find ((a, k) :: l) a' = if a =? a' then Some k else assoc_find l a'.
+Proof. reflexivity. Qed.
+
+(* GlobalEnvironment::get_binding *)
+Lemma get_binding_ok a s : minv s ->
+  exists k s', get_binding a s = ROk k s' /\ minv s' /\ cext s s' /\ hp s' = hp s /\ st s' = st s /\
+    assoc_find (g_bind s') a = Some k.
+Proof.
+  intros MI. unfold get_binding. destruct (assoc_find (g_bind s) a) as [k|] eqn:E.
+  - exists k, s. split; [reflexivity|]. split; [exact MI|]. split; [apply cext_refl|]. auto.
+  - exists (len (g_slots s)), (with_globals s ((a, len (g_slots s)) :: g_bind s) (g_slots s ++ [VUndef])).
+    split; [reflexivity|].
+    destruct MI as [HI [G1 G2] SP].
+    cbn [hp st g_bind g_slots with_globals]. rewrite (assoc_find_cons a (len (g_slots s)) (g_bind s) a), N.eqb_refl.
+    split; [|split; [|auto]].
+    + constructor; unfold ginv; cbn [hp st g_bind g_slots sp scap with_globals]; auto. split.
+      * intros a' k'. rewrite assoc_find_cons, len_app.
+        destruct (N.eqb_spec a a') as [<-|Hne]; [intros [= <-]; cbn; lia|].
+        intros H. apply G1 in H. lia.
+      * intros a1 a2 k'. rewrite !assoc_find_cons.
+        destruct (N.eqb_spec a a1) as [<-|H1]; destruct (N.eqb_spec a a2) as [<-|H2]; auto.
+        -- intros [= <-] H. apply G1 in H. lia.
+        -- intros H [= <-]. apply G1 in H. lia.
+        -- apply G2.
+    + constructor; cbn [hp st g_bind g_slots with_globals]; auto using hext_refl, sext_refl.
+      * intros a' k' H. rewrite assoc_find_cons. destruct (N.eqb_spec a a') as [<-|Hne]; [congruence|exact H].
+      * rewrite len_app. lia.
+Qed.
+
+Lemma location_operand_top l a s : top_hdr l ->
+  location_operand l (VPtr a) s = (dom slot <- get_binding a; ret (VGSlot slot)) s.
+Proof. intros [E A]. unfold location_operand, binding_location, envmap_slot. rewrite E, A. reflexivity. Qed.
+
+End Sem.
